@@ -82,6 +82,24 @@ def merge_reports(reps):
     return [out[t] for t in order]
 
 
+def random_ce_search(prop, targets, seed, n_each):
+    env = dict(os.environ)
+    env["PYTHONPATH"] = os.path.join(VERIF, ".build", "py312") + ":" + VERIF
+    outdir = os.path.join(VERIF, "replays", prop)
+    try:
+        p = subprocess.run([VENV_PY, "-W", "ignore", "-m", "pyvc.concrete", "randsearch", prop, ",".join(targets), str(seed), str(n_each), outdir],
+                           cwd=VERIF, env=env, capture_output=True, text=True, timeout=600)
+    except subprocess.TimeoutExpired:
+        return []
+    for line in reversed((p.stdout or "").splitlines()):
+        if line.strip().startswith("["):
+            try:
+                return json.loads(line)
+            except Exception:
+                return []
+    return []
+
+
 def depends_on(reports, target, helper_targets):
     """Does `target` (transitively, through contracts used) depend on one of helper_targets?"""
     by = {r.target: r for r in reports}
@@ -102,7 +120,7 @@ def depends_on(reports, target, helper_targets):
     return False
 
 
-def ce_search(con, ob_names, tier, jobs, deadline):
+def ce_search(con, ob_names, tier, jobs, deadline, inline=()):
     """Stage 2/3 counterexample search: instantiate the symbolic dimensions with small
     concrete values (quantifier-free queries) and strengthen trusted contracts with their
     observed refinements so that the model replays on the real library."""
@@ -114,7 +132,7 @@ def ce_search(con, ob_names, tier, jobs, deadline):
     while i < len(assigns) and time.time() < deadline and not found:
         chunk = assigns[i:i + batch]
         i += batch
-        reps = pool_map([(con.target, da, True, (), 8000) for da in chunk], jobs)
+        reps = pool_map([(con.target, da, True, tuple(inline), 8000) for da in chunk], jobs)
         for rep in reps:
             for ob in rep.obligations:
                 if ob.status == "failed" and replayable(ob) and (ob.level == "property" or ob.name in ob_names or any(_same_clause(ob.name, n) for n in ob_names)):
@@ -140,7 +158,7 @@ def run_property(a):
     if not targets:
         print("CHECKER-ERROR: no contracts registered for %s" % prop)
         return 3
-    timeout_ms = 20000 if tier == "quick" else 60000
+    timeout_ms = 12000 if tier == "quick" else 60000
     cc_proc = None
     if not a.no_crosscheck and os.path.isfile(VENV_PY):
         cc_proc = start_crosscheck(prop, seed, 3 if tier == "quick" else 12)
@@ -163,6 +181,22 @@ def run_property(a):
     failed = [(r, o) for r, o in all_obs if o.status == "failed"]
     unknown = [(r, o) for r, o in all_obs if o.status == "unknown"]
 
+    # ---- known findings (needed early) -------------------------------------------------
+    kf = [k for k in known_findings() if k.get("property") == prop]
+
+    def is_known(o):
+        for k in kf:
+            pat = k.get("obligation")
+            if pat and re.search(pat, o.name):
+                return k
+        return None
+
+    # ---- something is no longer discharged: look for a failing input on the real code --
+    rnd_found = {}
+    if [1 for r, o in failed + unknown if is_known(o) is None]:
+        for f in random_ce_search(prop, targets, seed, 150 if tier == "quick" else 2000):
+            rnd_found.setdefault(f["target"], f)
+
     # ---- alarm policy: helper failures are re-examined with the helper inlined -------
     pl_targets = [t for t in targets if REGISTRY.get(t).level == "property"]
     helper_failed = {}
@@ -173,11 +207,16 @@ def run_property(a):
     pl_failed = [(r, o) for r, o in failed if o.level == "property"]
     pl_unknown = [(r, o) for r, o in unknown if o.level == "property"]
     drift = []
-    if helper_failed:
+    if helper_failed and not rnd_found:
         htargets = set(helper_failed)
         dependents = [t for t in pl_targets if t not in htargets and depends_on(reports, t, htargets)]
         if dependents:
-            reps2 = merge_reports(pool_map([(t, None, False, tuple(sorted(htargets)), timeout_ms, (case,))
+            # inline every helper-level contract on the way down (a failing helper hidden
+            # behind another helper's contract would otherwise stay hidden)
+            helpers_all = tuple(sorted(t for t in REGISTRY.order if REGISTRY.get(t).level != "property" and not REGISTRY.get(t).trusted
+                                       and (prop in REGISTRY.get(t).props) and (t in htargets or depends_on(reports, t, htargets))))
+            inline_sets = {t: tuple(sorted(set(helpers_all) | htargets)) for t in dependents}
+            reps2 = merge_reports(pool_map([(t, None, False, inline_sets[t], timeout_ms, (case,))
                                             for t in dependents for case in REGISTRY.get(t).cases], a.jobs))
             for r2 in reps2:
                 bad = [o for o in r2.obligations if o.status != "proved" and (o.level == "property")]
@@ -189,6 +228,7 @@ def run_property(a):
                     drift.append("%s still proves with %s inlined" % (r2.target, sorted(htargets)))
                 for o in bad + hbad:
                     o.name = o.name + " [with %s inlined]" % ",".join(sorted(htargets))
+                    o.inline = inline_sets.get(r2.target, ())
                     o.level = "property"
                     (pl_failed if o.status == "failed" else pl_unknown).append((r2, o))
                 by[r2.target + "#inlined"] = r2
@@ -204,20 +244,30 @@ def run_property(a):
         if drift and not pl_failed and not pl_unknown:
             notes.append("CONTRACT-DRIFT: " + "; ".join(drift))
 
-    # ---- known findings --------------------------------------------------------------
-    kf = [k for k in known_findings() if k.get("property") == prop]
     kf_hits = []
+    if rnd_found and not pl_failed and not pl_unknown:
+        # only helper-level obligations broke, but the real code violates a property-level
+        # clause on a concrete input: report it against the first broken obligation
+        for r, o in failed + unknown:
+            if is_known(o) is None:
+                pl_unknown.append((r, o))
+                break
 
-    def is_known(o):
-        for k in kf:
-            pat = k.get("obligation")
-            if pat and re.search(pat, o.name):
-                return k
-        return None
+    # recorded findings with a committed witness: replayed against the real code on every
+    # run; reported while the real code still violates the un-carved clause at the witness
+    for k in kf:
+        w = k.get("witness")
+        if not w:
+            continue
+        rc, outw = run_replay(os.path.join(VERIF, w))
+        if rc == 0:
+            kf_hits.append((k, None))
+        elif rc == 2:
+            notes.append("known-finding witness %s could not be replayed: %s" % (w, outw[-200:]))
 
     # ---- violations: replay ----------------------------------------------------------
     violations = []
-    deadline = time.time() + (240 if tier == "quick" else 1500)
+    deadline = time.time() + (120 if tier == "quick" else 1500)
     seen_names = set()
     for r, o in pl_failed:
         if o.name in seen_names:
@@ -235,8 +285,11 @@ def run_property(a):
             rp = write_replay(prop, o, r)
             rc, out = run_replay(rp)
             confirmed = rc == 0
+        if not confirmed and rnd_found:
+            f = rnd_found.get(r.target) or next(iter(rnd_found.values()))
+            confirmed, rp, out = True, f["replay"], "random concrete search: clause fails on the real code (%s)" % f["obligation"]
         if not confirmed:
-            found = ce_search(con, {o.name}, tier, a.jobs, deadline) if con.dims else []
+            found = ce_search(con, {o.name}, tier, a.jobs, deadline, getattr(o, 'inline', ())) if con.dims else []
             for (r3, o3) in found:
                 rp3 = write_replay(prop, o3, r3, {"found_by": "concrete-dimension search with observed library refinements", "original_obligation": o.name})
                 rc, out3 = run_replay(rp3)
@@ -261,7 +314,12 @@ def run_property(a):
             # a confirmed violation is already reported; undecided siblings add nothing
             still_unknown.append((r, o))
             continue
-        found = ce_search(con, {o.name}, tier, a.jobs, deadline) if con.dims else []
+        if rnd_found:
+            f = rnd_found.get(r.target) or next(iter(rnd_found.values()))
+            o.detail = (o.detail or "") + " | failing input found by random concrete search: " + f["obligation"]
+            violations.append((o, f["replay"], True))
+            continue
+        found = ce_search(con, {o.name}, tier, a.jobs, deadline, getattr(o, 'inline', ())) if con.dims else []
         hit = False
         for (r3, o3) in found:
             k = is_known(o3)
@@ -315,8 +373,12 @@ def run_property(a):
         if not confirmed:
             line += " no-failing-input-found"
         lines.append(line)
+    seen_k = set()
     for k, o in kf_hits:
-        lines.append("KNOWN-FINDING: property=%s %s" % (prop, k["text"].split(" ", 2)[-1] if " " in k["text"] else k["text"]))
+        if k["text"] in seen_k:
+            continue
+        seen_k.add(k["text"])
+        lines.append("KNOWN-FINDING: property=%s %s" % (prop, k["text"].split("::", 1)[-1].strip()))
     if violations:
         exit_code = 1
     elif errors or vacuous or guard_msgs:
